@@ -912,6 +912,63 @@ def gen_tables(ctx):
         shutil.rmtree(base, ignore_errors=True)
 
 
+def path_chain_programs(rng):
+    """chains of 3-5 path symbols, each relative to the previous one (`-rel SYM x` / `@[SYM]@/x` / `@[SYM]@`), over every
+    bottom relativity (and an absolute bottom), bottom suffix empty / one / several components; every link of the chain is
+    rendered in a file and handed to the act phase's probe"""
+    progs = []
+    builtin_of = {'REL_HDS_CASE': 'EXACTLY_HOME', 'REL_HDS_ACT': 'EXACTLY_ACT_HOME', 'REL_ACT': 'EXACTLY_ACT',
+                  'REL_TMP': 'EXACTLY_TMP', 'REL_RESULT': 'EXACTLY_RESULT'}
+    k = 0
+    for bottom in REL_ORDER + ['abs']:
+        for bsfx in ('', 'a', 'a/b'):
+            for depth in (3, 4, 5):
+                for pattern in ('relsym', 'pref', 'mixed'):
+                    k += 1
+                    defs = []
+                    if bottom == 'abs':
+                        txt = '/abs' + ('/' + bsfx if bsfx else '')
+                        defs.append(dict(kind='def', name='P1', tid='path', src='def path P1 = %s' % txt, val=('pconst', None, txt)))
+                    elif bsfx == '' and bottom in builtin_of:
+                        defs.append(dict(kind='def', name='P1', tid='path', src='def path P1 = @[%s]@' % builtin_of[bottom],
+                                         val=('pref', builtin_of[bottom], [], 'REL_CWD')))
+                    else:
+                        sf = bsfx or 'z'
+                        defs.append(dict(kind='def', name='P1', tid='path', src='def path P1 = %s %s' % (REL_OPT[bottom], sf),
+                                         val=('prelopt', bottom, [('c', sf)])))
+                    for d in range(2, depth + 1):
+                        prev, nm = 'P%d' % (d - 1), 'P%d' % d
+                        form = pattern if pattern != 'mixed' else ('relsym' if (d + k) % 2 else 'pref')
+                        lsfx = ['b', 'c/d', 'e', ''][(d + k) % 4]
+                        if form == 'relsym':
+                            lsfx = lsfx or 'f'
+                            defs.append(dict(kind='def', name=nm, tid='path', src='def path %s = -rel %s %s' % (nm, prev, lsfx),
+                                             val=('prelsym', prev, [('c', lsfx)])))
+                        else:
+                            tail = [('c', '/' + lsfx)] if lsfx else []
+                            defs.append(dict(kind='def', name=nm, tid='path',
+                                             src='def path %s = @[%s]@%s' % (nm, prev, '/' + lsfx if lsfx else ''),
+                                             val=('pref', prev, tail, 'REL_CWD')))
+                    fr = []
+                    for d in range(depth, 0, -1):
+                        fr += [('s', 'P%d' % d), ('c', '|')]
+                    use = dict(kind='use', src='file {FILE} = %s' % frags_src(fr), vals=[('str', fr)], file=True)
+                    els = [('r', 'P%d' % depth), ('e', [('c', 'x='), ('s', 'P%d' % (depth - 1))])]
+                    act = dict(kind='use', src='probe.sh @[P%d]@ "x=@[P%d]@"' % (depth, depth - 1), vals=[('lst', els)], act=True)
+                    phases = {p: [] for p in PHASES}
+                    cut = 1 + k % depth
+                    phases['setup'] = defs[:cut] if k % 3 else defs
+                    rest = [] if not k % 3 else defs[cut:]
+                    if k % 2:
+                        phases['setup'] += rest
+                        phases['act'] = [act]
+                        phases['before-assert'] = [use]
+                    else:
+                        phases['before-assert'] = rest + [use]  # (no act phase: it would see only the definitions of [setup])
+                    progs.append(finish_program(rng, phases))
+    return progs
+
+
 def special_programs(rng):
     """self references, mutual forward references, duplicate definitions in every pair of phases (builtins included)"""
     progs = []
@@ -1390,6 +1447,7 @@ def _run(ctx, res, rng, runner, programs):
             programs.append(finish_program(common.Rng(1), copy.deepcopy(c)))
         programs += systematic_programs(rng, ctx.quick)
         programs += special_programs(rng)
+        programs += path_chain_programs(rng)
         programs += [gen_program(rng, runner.live, ctx.quick) for _ in range(n_random)]
     terms, kept = [], []
     for prog in programs:
@@ -1448,7 +1506,7 @@ def search(ctx, res):
     runner = Runner(ctx.work)
     try:
         rng = common.Rng(ctx.seed * 7919 + 13)
-        progs = special_programs(rng) + [gen_program(rng, runner.live, False) for _ in range(1500)]
+        progs = special_programs(rng) + path_chain_programs(rng) + [gen_program(rng, runner.live, False) for _ in range(1500)]
         _run(ctx, res2, rng, runner, progs)
     finally:
         runner.close()
